@@ -3,24 +3,37 @@
    encoder / decoder        : Model.Codec (hand-written transcription of encode.go, decode.go, buffer.go and the eight
                               hand-written codecs; tied to the code by the codecharness correspondence: model bytes =
                               Go bytes, model decoded tree = Go decoded tree, consumed counts, outcome classes)
-   PROVED (C01_partial_generic): the round trip, with rest-independence (consumes exactly the encoding), for every
-   descriptor built from the reflection-driven constructors (bool, all integer kinds, float32/64, string, DateTime,
-   []byte, slices, pointers, structs) and the hand-written GUID and LocalizedText codecs, for ALL well-formed values.
-   NOT PROVED (only validated by correspondence and by the oracle on the implementation): the round trip through
-   the hand-written NodeID, ExpandedNodeID, DiagnosticInfo, DataValue, Variant and ExtensionObject codecs. *)
+   well-formedness / normal form : Model.CodecWfAll (rwf, rnorm; conventions in its header)
+   PROVED, FULL (C01_roundtrip): for ANY registry, ANY descriptor of the universe (bool, all integer kinds, float32/64,
+   string, DateTime, []byte, slices, pointers, structs, and all eight hand-written codecs: GUID, LocalizedText, NodeID
+   in its six encodings, ExpandedNodeID, DataValue and DiagnosticInfo with every mask, Variant null / scalar of every
+   builtin type id / nil, empty and n-element arrays / multi-dimensional arrays, ExtensionObject nil / mask 0 / nil body
+   / XML body / registered struct body) and ANY well-formed value: Encode succeeds, the encoding has at least the
+   static minimal size, and Decode of the encoding followed by ANY rest returns the normal form of the value and leaves
+   exactly that rest, for every nesting budget above the length of the encoding (in particular fuel_for).
+   Instances: C01_generated (all 309 generated struct descriptors, the pointer types handed to ua.Decode, the Variant
+   element types), C01_service (type id + body as DecodeService reads them; decode_service is a transcription of
+   service.go:35-54 whose two halves, not itself, are covered by the correspondence).
+   Outside rwf, with theorems stating what happens instead: extension objects whose registered body is an empty
+   struct (REFUTED, known finding extobj-empty-struct), zero array dimensions, nil struct pointers. *)
 From Coq Require Import NArith ZArith List Bool Lia.
 From Coq.Strings Require Import Byte.
-From Opcua Require Import Model.CodecTypes Model.Codec Model.CodecEq Model.CodecWf Proofs.CodecBase Proofs.CodecRoundtrip Gen.UaTypes.
+From Opcua Require Import Model.CodecTypes Model.Codec Model.CodecEq Model.CodecWf Model.CodecWfAll Proofs.CodecBase Proofs.CodecRT
+  Proofs.CodecCustomsA Proofs.CodecRoundtripAll Proofs.CodecTotal Gen.UaTypes.
 Import ListNotations.
 Open Scope Z_scope.
 
 Definition gen_reg : list (Z * Z * ty) := mk_reg eo_table.
+Definition svc_reg : list (Z * Z * ty) := mk_reg svc_table.
+(* every descriptor the code encodes from / decodes into *)
+Definition all_tys : list ty :=
+  all_structs ++ map TPtr all_structs ++ map snd variant_types ++ [xml_body_ty].
 
 (* the round trip of one value: it encodes, the encoding has at least the static minimal size, and decoding the
    encoding followed by ANY rest gives the normalised value and leaves exactly that rest *)
 Definition roundtrips (reg : list (Z * Z * ty)) (t : ty) (v : val) : Prop :=
   exists bs, encode reg t v = EOk bs /\ (minsize t <= length bs)%nat /\
-    forall fuel rest, (1 <= fuel)%nat -> exists al, decode reg fuel t (bs ++ rest) = Ok (norm t v) rest al.
+    forall fuel rest, (length bs < fuel)%nat -> exists al, decode reg fuel t (bs ++ rest) = Ok (rnorm reg t v) rest al.
 
 (* generated tables agree with the constants and the Variant type table transcribed in the model *)
 Theorem C01_registry :
@@ -32,29 +45,89 @@ Theorem C01_registry :
   (go_diag_masks, go_extobj_masks, go_nodeid_types) = ([1; 2; 4; 8; 16; 32; 64], [0; 1; 2], [0; 1; 2; 3; 4; 5]).
 Proof. vm_compute. repeat split; reflexivity. Qed.
 
-(* PARTIAL (generic layer, full quantifier): any registry, any descriptor of the fragment, any well-formed value *)
-Theorem C01_partial_generic : forall reg t v, generic_ty t = true -> gwf t v = true -> roundtrips reg t v.
+(* FULL: any registry, any descriptor, any well-formed value *)
+Theorem C01_roundtrip : forall reg t v, rwf reg t v = true -> roundtrips reg t v.
 Proof.
-  intros reg t v Hg Hw. destruct (roundtrip_generic reg 0 t Hg v Hw) as [bs [E [L _]]].
+  intros reg t v Hw. destruct (roundtrip_all reg t v Hw 0%nat) as [bs [E [L _]]].
   exists bs. split; [exact E|]. split; [exact L|]. intros fuel rest Hf.
-  destruct fuel as [|f]; [lia|].
-  destruct (roundtrip_generic reg f t Hg v Hw) as [bs' [E' [_ D]]]. rewrite E in E'. inversion E'; subst bs'. apply D.
+  destruct (roundtrip_all reg t v Hw fuel) as [bs' [E' [_ D]]]. rewrite E in E'. inversion E'; subst bs'. exact (D Hf rest).
 Qed.
 
-(* instantiated at what the code registers today: every generated struct descriptor of the fragment *)
-Theorem C01_generated_structs : forall t v, In t (filter generic_ty all_structs) -> gwf t v = true -> roundtrips gen_reg t v.
-Proof. intros t v Hin Hw. apply filter_In in Hin. apply C01_partial_generic; tauto. Qed.
+(* in the shape of the design: with the nesting budget fuel_for of the encoding *)
+Theorem C01_roundtrip_fuel_for : forall reg t v, rwf reg t v = true ->
+  exists bs, encode reg t v = EOk bs /\
+    forall rest, exists al, decode reg (fuel_for bs) t (bs ++ rest) = Ok (rnorm reg t v) rest al.
+Proof.
+  intros reg t v Hw. destruct (C01_roundtrip reg t v Hw) as [bs [E [_ D]]]. exists bs. split; [exact E|].
+  intros rest. apply D. unfold fuel_for. lia.
+Qed.
 
-(* hypotheses are satisfiable: a registered struct with strings, a byte string, a nil slice, a DateTime off the 100 ns grid
-   and a NaN with payload (normalised), found among the generated descriptors *)
+(* instantiated at what the code registers today *)
+Theorem C01_generated : forall t v, In t all_tys -> rwf gen_reg t v = true -> roundtrips gen_reg t v.
+Proof. intros t v _ Hw. apply C01_roundtrip. exact Hw. Qed.
+
+(* ua.DecodeService: the type id, the service registry lookup, then the body into a new struct *)
+Definition encode_service (tid : val) (t : ty) (v : val) : eres := eapp (enc_expnodeid tid) (encode gen_reg (TPtr t) v).
+Definition decode_service (fuel : nat) : dec (val * val) :=
+  tid <- dec_expnodeid ;;
+  match lookup_expnodeid svc_reg tid with
+  | None => fail EOther
+  | Some t => v <- decode gen_reg fuel (TPtr t) ;; ret (tid, v)
+  end.
+Theorem C01_service : forall tid t v,
+  expnodeid_ok tid = true -> lookup_expnodeid svc_reg tid = Some t -> rwf gen_reg (TPtr t) v = true ->
+  exists bs, encode_service tid t v = EOk bs /\
+    forall fuel rest, (length bs < fuel)%nat ->
+      exists al, decode_service fuel (bs ++ rest) = Ok (norm_expnodeid tid, rnorm gen_reg (TPtr t) v) rest al.
+Proof.
+  intros tid t v Htid Hl Hw.
+  destruct (RTb_expnodeid 0 tid Htid) as [b1 [E1 _]]. destruct (C01_roundtrip gen_reg (TPtr t) v Hw) as [b2 [E2 [_ D2]]].
+  exists (b1 ++ b2). unfold encode_service. rewrite E1, E2. split; [reflexivity|]. intros fuel rest Hf.
+  rewrite app_length in Hf. rewrite <- app_assoc. unfold decode_service.
+  destruct (RTb_expnodeid fuel tid Htid) as [b1' [E1' [_ D1]]]. rewrite E1 in E1'. inversion E1'; subst b1'.
+  eapply decodes_bind; [apply D1; lia|].
+  assert (Hl' : lookup_expnodeid svc_reg (norm_expnodeid tid) = Some t).
+  { destruct tid; try discriminate. destruct nid as [n|]; [|discriminate].
+    cbn [norm_expnodeid lookup_expnodeid] in *. destruct n; try discriminate. exact Hl. }
+  rewrite Hl'. eapply decodes_bind; [apply D2; lia|apply decodes_ret].
+Qed.
+
+(* every generated descriptor has well-formed values (the zero value with non-nil pointers), and every service is found *)
+Fixpoint dflt (t : ty) : val :=
+  match t with
+  | TBool => VBool false | TInt _ _ => VInt 0 | TFloat _ => VInt 0 | TString => VStr [] | TTime => VTime None
+  | TBytes => VBytes None | TSlice _ => VSlice None | TPtr e => VPtr (Some (dflt e)) | TStruct fs => VStruct (map dflt fs)
+  | TCustom CVariant => zero_variant | TCustom CDataValue => VDataValue 0 None 0 None 0 None 0
+  | TCustom CDiagInfo => VDiag 0 0 0 0 0 [] 0 None | TCustom CLocText => VLocText 0 [] []
+  | TCustom CNodeID => zero_nodeid | TCustom CExpNodeID => zero_expnodeid | TCustom CExtObj => zero_extobj
+  | TCustom CGUID => VGuid 0 0 0 (repeat x00 8)
+  end.
+Theorem C01_descriptors_inhabited :
+  forallb (fun t => rwf gen_reg t (dflt t)) all_tys = true /\ length all_structs = 309%nat /\
+  forallb (fun r => match lookup_expnodeid svc_reg (VExpNodeID (Some (VNodeID 1 (fst (fst (fst r))) (snd (fst (fst r))) None None)) [] 0)
+                    with Some t => true | None => false end) svc_table = true.
+Proof. vm_compute. repeat split; reflexivity. Qed.
+
+(* hypotheses are satisfiable by real values: a ReadResponse (generated by the harness from the Go type) with a
+   DateTime off the 100 ns grid, an extension object with a registered body, a 2x3 SByte matrix in a DataValue with all
+   mask bits, a DataValue without a Variant (normalised to the allocated zero Variant), DiagnosticInfos *)
+Definition sample_ReadResponse : val :=
+  VStruct [VPtr (Some (VStruct [VTime (Some (-9223372036854775808)); VInt 2147483648; VInt 2267030203;
+                                VDiag 32 0 0 0 0 [] 406264136 None; VSlice None;
+                                VExtObj 1 (Some (VExpNodeID (Some (VNodeID 1 0 873 None None)) [] 0))
+                                          (Some (VPtr (Some (VStruct [VInt 149; VInt 270]))))]));
+           VSlice (Some [VDataValue 63 (Some (VVariant 194 6 2 [2; 3]
+                                          (Some (VSlice (Some [VSlice (Some [VInt 53; VInt 42; VInt (-7)]);
+                                                               VSlice (Some [VInt 77; VInt 123; VInt 0])])))))
+                                    57 (Some 2662067325045343018) 65 None 182;
+                         VDataValue 0 None 0 None 0 None 0;
+                         VDataValue 36 None 0 (Some (-5396679310699336342)) 0 None 254]);
+           VSlice (Some [VDiag 15 83 (-213496108) 58 (-585222300) [] 0 None; VDiag 16 0 0 0 0 [x61] 0 None])].
 Example C01_nonvacuous :
-  generic_ty (TStruct [TString; TTime; TFloat 8; TSlice (TInt 4 true); TPtr (TStruct [TCustom CLocText; TCustom CGUID])]) = true /\
-  gwf (TStruct [TString; TTime; TFloat 8; TSlice (TInt 4 true); TPtr (TStruct [TCustom CLocText; TCustom CGUID])])
-      (VStruct [VStr [x61; x62]; VTime (Some 1234567890123456789); VInt 9221120237041090561;
-                VSlice (Some [VInt (-1); VInt 2147483647]);
-                VPtr (Some (VStruct [VLocText 3 [x65; x6e] [x68; x69]; VGuid 1 2 3 [x01;x02;x03;x04;x05;x06;x07;x08]]))]) = true /\
-  norm (TStruct [TTime; TFloat 8]) (VStruct [VTime (Some 1234567890123456789); VInt 9221120237041090561])
-    = VStruct [VTime (Some 1234567890123456700); VInt f64qnan].
+  rwf gen_reg ty_ReadResponse sample_ReadResponse = true /\
+  val_eqb (rnorm gen_reg ty_ReadResponse sample_ReadResponse) sample_ReadResponse = false /\
+  rnorm gen_reg (TCustom CDataValue) (VDataValue 36 None 0 (Some (-5396679310699336342)) 0 None 254)
+    = VDataValue 36 (Some zero_variant) 0 (Some (-5396679310699336300)) 0 None 254.
 Proof. vm_compute. repeat split; reflexivity. Qed.
 
 (* executable statement "v encodes and the encoding decodes (consuming everything) to v' ", as a boolean so that
@@ -82,24 +155,27 @@ Definition empty_extobj_value : option val :=
   end.
 Theorem C01_refuted_empty_extobj :
   match empty_extobj_value with
-  | Some v => rt_check (TCustom CExtObj) v v = false /\
+  | Some v => rwf gen_reg (TCustom CExtObj) v = false /\ rt_check (TCustom CExtObj) v v = false /\
               rt_check (TCustom CExtObj) v (match v with VExtObj m t _ => VExtObj m t None | _ => v end) = true
   | None => False
   end.
-Proof. vm_compute. split; reflexivity. Qed.
+Proof. vm_compute. repeat split; reflexivity. Qed.
 
 (* domain decision (DESIGN row 9, pinned by TestArray/dimensions_zero): a matrix with a zero dimension is encodable but
    the decoder rejects it; such values are outside wf *)
 Theorem C01_zero_dim_rejected :
   rejected_check (TCustom CVariant)
-    (VVariant 198 0 2 [2; 0] (Some (VSlice (Some [VSlice (Some []); VSlice (Some [])])))) = true.
-Proof. vm_compute. reflexivity. Qed.
+    (VVariant 198 0 2 [2; 0] (Some (VSlice (Some [VSlice (Some []); VSlice (Some [])])))) = true /\
+  rwf gen_reg (TCustom CVariant)
+    (VVariant 198 0 2 [2; 0] (Some (VSlice (Some [VSlice (Some []); VSlice (Some [])])))) = false.
+Proof. vm_compute. split; reflexivity. Qed.
 
 (* a nil struct pointer encodes to nothing and is therefore not a protocol value *)
 Theorem C01_nil_ptr_not_a_value :
   encode [] (TStruct [TPtr (TStruct [TInt 1 false]); TInt 1 false]) (VStruct [VPtr None; VInt 7]) = EOk [x07] /\
-  res_class (decode [] 1 (TStruct [TPtr (TStruct [TInt 1 false]); TInt 1 false]) [x07]) = 1.
-Proof. vm_compute. split; reflexivity. Qed.
+  res_class (decode [] 1 (TStruct [TPtr (TStruct [TInt 1 false]); TInt 1 false]) [x07]) = 1 /\
+  rwf [] (TStruct [TPtr (TStruct [TInt 1 false]); TInt 1 false]) (VStruct [VPtr None; VInt 7]) = false.
+Proof. vm_compute. repeat split; reflexivity. Qed.
 
 (* the fixed ByteString array defect (DESIGN row 8) on the model: [][]byte{{1,2},{3}} now round-trips; so do a 2x3
    matrix and a DataValue holding it *)
@@ -113,8 +189,11 @@ Example C01_customs_examples :
 Proof. vm_compute. repeat split; reflexivity. Qed.
 
 Print Assumptions C01_registry.
-Print Assumptions C01_partial_generic.
-Print Assumptions C01_generated_structs.
+Print Assumptions C01_roundtrip.
+Print Assumptions C01_roundtrip_fuel_for.
+Print Assumptions C01_generated.
+Print Assumptions C01_service.
+Print Assumptions C01_descriptors_inhabited.
 Print Assumptions C01_refuted_empty_extobj.
 Print Assumptions C01_zero_dim_rejected.
 Print Assumptions C01_nil_ptr_not_a_value.
